@@ -630,7 +630,7 @@ def draw_clients_values(draw, spec, n, elems):
   first = [leaf_values(draw, l, elems) for l in ls]
   clients = [first]
   menu = ['fresh', 'fresh', 'fresh', 'fresh', 'copy', 'neg']
-  if n > 1 and draw(st.integers(0, 11)) == 0:
+  if n > 1 and draw(st.integers(0, 11)) == 5:
     menu = ['copy']  # all clients identical: the hull is a single point
   for _ in range(1, n):
     cur = []
@@ -740,7 +740,7 @@ def clip_case(draw, tier):
   has_f16 = any(l['dtype'] == 'f16' for l in ls)
   elems = {'f32': f32_elements(30), 'f16': F16_ELEMENTS,
            'i32': i32_elements(24 if has_f16 else 4096)}
-  zero_tree = draw(st.integers(0, 19)) == 0
+  zero_tree = draw(st.integers(0, 19)) == 7  # ~5 %: Hypothesis over-samples the endpoints
   if zero_tree:
     leaves = []
     for l in ls:
@@ -748,6 +748,13 @@ def clip_case(draw, tier):
       leaves.append([0 if l['dtype'] == 'i32' else 0.0] * size)
   else:
     leaves = [leaf_values(draw, l, elems) for l in ls]
+    if not any(any(v) for v in leaves):
+      # Hypothesis likes all-zero payloads; zero trees have their own class.
+      for l, v in zip(ls, leaves):
+        if v:
+          k = draw(st.integers(1, 24))
+          v[0] = k if l['dtype'] == 'i32' else k / 16.0
+          break
   if has_f16:
     abs_b = st.integers(-4, 12).map(lambda e: 2.0 ** e)
     ratios = RATIOS_F16
@@ -856,7 +863,7 @@ CHECKS = [
     Check(name='tree_mean', run=lambda c: run_mean(c, 'tree_mean'),
           strategy=lambda tier: mean_case(tier, 'tree_mean'),
           labels=mean_labels, nontrivial=mean_nontrivial,
-          budget={'quick': 4000, 'thorough': 60000}, time_share=1.5,
+          budget={'quick': 2000, 'thorough': 60000}, time_share=1.3,
           doc='tree_mean == float64 sum(w p)/sum(w) leaf by leaf (zeros, never '
               'NaN, for zero total weight), inside the hull, order independent '
               'within rounding, one-pass over iterators, inputs (leaves and '
@@ -864,19 +871,19 @@ CHECKS = [
     Check(name='mean_aggregator', run=lambda c: run_mean(c, 'aggregator'),
           strategy=lambda tier: mean_case(tier, 'aggregator'),
           labels=mean_labels, nontrivial=mean_nontrivial,
-          budget={'quick': 2000, 'thorough': 30000}, time_share=1.0,
+          budget={'quick': 1000, 'thorough': 30000}, time_share=0.7,
           doc='mean_aggregator().apply over (client_id, params, weight): same '
               'oracle as tree_mean, agrees with tree_mean, state returned '
               'unchanged'),
     Check(name='tree_sum', run=run_sum, strategy=sum_case,
           labels=sum_labels, nontrivial=sum_nontrivial,
-          budget={'quick': 3000, 'thorough': 40000}, time_share=1.0,
+          budget={'quick': 1400, 'thorough': 40000}, time_share=0.8,
           doc='tree_sum == float64 sum(p) (exact for int32), order independent '
               'within rounding, one-pass, inputs neither deleted, modified nor '
               'aliased (including the single-tree case)'),
     Check(name='clip_by_global_norm', run=run_clip, strategy=clip_case,
           labels=clip_labels, nontrivial=clip_nontrivial,
-          budget={'quick': 4000, 'thorough': 60000}, time_share=1.0,
+          budget={'quick': 2000, 'thorough': 60000}, time_share=1.2,
           doc='tree_clip_by_global_norm: |out| <= bound(1+eps), out is a '
               'positive multiple of in with factor min(1, bound/|in|), '
               'bit-identical below the bound, input left usable and unchanged'),
